@@ -350,17 +350,25 @@ pub fn present(input: &str, fmt: Fmt, a: &PresentArgs) -> (Outcome<String>, u64,
 pub struct Resolver {
     pub default: KeyId,
     pub by_iss: Vec<(String, KeyId)>,
+    /// looked up first, by the `kid` of the header the library hands to the resolver
+    pub by_kid: Vec<(String, KeyId)>,
 }
 impl Resolver {
     pub fn always(k: KeyId) -> Self {
-        Resolver { default: k, by_iss: vec![] }
+        Resolver { default: k, by_iss: vec![], by_kid: vec![] }
     }
-    pub fn key_for(&self, iss: &str) -> KeyId {
+    pub fn key_for(&self, iss: &str, kid: Option<&str>) -> KeyId {
+        if let Some(k) = kid {
+            if let Some(x) = self.by_kid.iter().find(|(i, _)| i == k) {
+                return x.1;
+            }
+        }
         self.by_iss.iter().find(|(i, _)| i == iss).map(|x| x.1).unwrap_or(self.default)
     }
     pub fn json(&self) -> Value {
         json!({"default": self.default.json(),
-               "by_iss": self.by_iss.iter().map(|(i, k)| json!({"iss": i, "key": k.json()})).collect::<Vec<_>>()})
+               "by_iss": self.by_iss.iter().map(|(i, k)| json!({"iss": i, "key": k.json()})).collect::<Vec<_>>(),
+               "by_kid": self.by_kid.iter().map(|(i, k)| json!({"kid": i, "key": k.json()})).collect::<Vec<_>>()})
     }
 }
 
@@ -393,7 +401,7 @@ pub fn verify(a: &VerifyArgs) -> VerifyRes {
                 a.input.clone(),
                 Box::new(move |iss: &str, header: &Header| -> DecodingKey {
                     log2.lock().unwrap().push((iss.to_string(), serde_json::to_value(header).unwrap_or(Value::Null)));
-                    resolver.key_for(iss).decoding()
+                    resolver.key_for(iss, header.kid.as_deref()).decoding()
                 }),
                 a.aud.clone(),
                 a.nonce.clone(),
